@@ -283,6 +283,12 @@ def str_join(eng, args, kwargs, st, node):
     eng.trusted_used.add('builtin:str.join (uninterpreted py_join with snoc/empty/singleton laws)')
     r = eng.model_app('py_join', [sep.t, seq], STR)
     _join_axioms(eng)
+    if sep.t.lit is not None and '\t' not in sep.t.lit[1]:
+        # a tab in the joined text comes from one of the pieces (used for C01.tabs)
+        i = smt.bound(eng.ctx, 'i', INT)
+        no_tab_piece = smt.ForAll([i], Implies(And(Le(IntV(0), i), Lt(i, Len(seq))), Not(Contains(At(seq, i), StrV('\t')))),
+                                  patterns=[[At(seq, i)]])
+        st.assume(Implies(no_tab_piece, Not(Contains(r, StrV('\t')))))
     return [(VStr(r), st)]
 
 
@@ -331,13 +337,34 @@ def str_splitlines(eng, args, kwargs, st, node):
     name = 'py_splitlines_keep' if keep else 'py_splitlines'
     eng.trusted_used.add('builtin:str.splitlines (uninterpreted %s)' % name)
     r = eng.model_app(name, [s.t], '(Seq String)')
+    # every line is a substring of the text
+    i = smt.bound(eng.ctx, 'i', INT)
+    st.assume(smt.ForAll([i], Implies(And(Le(IntV(0), i), Lt(i, Len(r))), Contains(s.t, At(r, i))), patterns=[[At(r, i)]]))
     return [(st.alloc(HList(r, ('str',))), st)]
 
 
 @str_method('format')
 def str_format(eng, args, kwargs, st, node):
-    eng.trusted_used.add('builtin:str.format (unconstrained text)')
-    return [(VStr(eng.ctx.fresh('fmt', STR)), st)]
+    eng.trusted_used.add('builtin:str.format (unconstrained text; a template that is not a literal may contain stray braces '
+                         'and raise ValueError / KeyError / IndexError)')
+    tmpl = args[0]
+    out = []
+    if tmpl.t.lit is None:
+        # the template contains text the function does not control
+        for cls in (ValueError, KeyError, IndexError):
+            s2 = st.copy()
+            out.append((Raised(VExc(cls, {}, tag='str.format')), s2))
+    else:
+        import string as _string
+        try:
+            fields = [f for _, f, _, _ in _string.Formatter().parse(tmpl.t.lit[1]) if f is not None]
+        except ValueError:
+            return [(Raised(VExc(ValueError, {}, tag='str.format')), st)]
+        n_auto = len([f for f in fields if f == ''])
+        if n_auto > len(args) - 1:
+            return [(Raised(VExc(IndexError, {}, tag='str.format')), st)]
+    out.append((VStr(eng.ctx.fresh('fmt', STR)), st))
+    return out
 
 
 def _str_mod(eng, args, kwargs, st, node):
